@@ -42,7 +42,7 @@ ASSUMPTIONS = [
     "a load is checked against the set of values committed before it was invoked or by an evaluation concurrent with it (necessary condition of linearizability, no false alarm)",
     "a killed peer (fault) is excluded from the oracles; survivors must still succeed",
 ]
-PROBES = ["reader_between_blob_and_meta", "two_writers_same_blob", "creation_race", "reader_during_relink",
+PROBES = ["reader_pipeline", "reader_between_blob_and_meta", "two_writers_same_blob", "creation_race", "reader_during_relink",
           "preempt_in_eval", "kill_peer", "stall", "clock_jump", "different_data_dirs", "three_procs"]
 
 POLICIES = ["random", "sticky", "pct", "rr"]
@@ -53,7 +53,7 @@ def gen_case(streams, tier, avoid):
     rng = streams.get("program")
     prog = workloads.gen_program(rng, nfun=cfg.randint(2, 4), big=cfg.random() < 0.4)
     names = sorted(prog["funcs"])
-    fam = cfg.choice(["cold", "cold", "keep_vs_load", "changed_vs_reader", "mixed"])
+    fam = cfg.choice(["cold", "cold", "keep_vs_load", "changed_vs_reader", "mixed", "reader_pipeline"])
     nprocs = cfg.choice([2, 2, 2, 3])
     setup = 0
     edit = None
@@ -77,6 +77,16 @@ def gen_case(streams, tier, avoid):
         procs.append({"src": "old", "ops": [["eval"], ["load", cfg.choice(paths)]], "data": "data"})
         if nprocs == 3:
             procs.append({"src": "new", "ops": [["load", cfg.choice(paths)], ["eval"]], "data": "data"})
+    elif fam == "reader_pipeline":
+        # a pipeline that only LOADS a path of the producer runs next to a producer whose code changed
+        setup = 1
+        workloads.add_reader(prog, rng)
+        edit = {"f": cfg.choice(names)}
+        procs.append({"src": "old", "ops": [["evalr"]] + ([["load", cfg.choice(paths)]] if cfg.random() < 0.5 else []),
+                      "data": "data"})
+        procs.append({"src": "new", "ops": [["eval"]], "data": "data"})
+        if nprocs == 3:
+            procs.append({"src": cfg.choice(["old", "new"]), "ops": [[cfg.choice(["evalr", "eval"])]], "data": "data"})
     else:
         setup = cfg.choice([0, 1])
         edit = {"f": cfg.choice(names)} if cfg.random() < 0.5 else None
@@ -186,6 +196,22 @@ def _run(case, root):
             raise HarnessError(f"reference run failed: {r['res']}")
         val[k] = r["res"]
         tab[k] = {p: canon(v) for p, v in t.items()}
+    has_reader = "fr" in old["funcs"]
+    rentry = ir.modname(old, "m0") + ":fr"
+    rval = {}
+    if has_reader:
+        from ..pipe.ref import ref_eval as _re
+
+        for rs in ("old", "new"):
+            for ps in ("old", "new"):
+                (r0,), t0 = _re(src[ps], [{"entry": entry}])
+                (r1,), _t = _re(src[rs], [{"entry": rentry}], table=t0)
+                if r1["res"][0] != "ok":
+                    raise HarnessError(f"reader reference failed: {r1['res']}")
+                rval[(rs, ps)] = r1["res"]
+        # the reader's own path is not part of the producer tables
+        for k in ("old", "new"):
+            tab[k].pop("/rd/out", None)
     live = os.path.join(root, "live")
     os.makedirs(live)
     idir = os.path.join(live, "int")
@@ -199,6 +225,8 @@ def _run(case, root):
         for o in ops:
             if o[0] == "eval":
                 out.append({"op": "eval", "entry": entry, "invoke_gate": gates})
+            elif o[0] == "evalr":
+                out.append({"op": "eval", "entry": rentry, "invoke_gate": gates})
             else:
                 out.append({"op": "load", "path": o[1], "invoke_gate": gates})
         return out
@@ -226,6 +254,8 @@ def _run(case, root):
                 sim.close()
             if case["setup_evals"]:
                 writes[d].append((-2, -1, tab["old"]))
+    if has_reader:
+        probe("reader_pipeline")
     if len(datas) > 1:
         probe("different_data_dirs")
     if len(case["procs"]) > 2:
@@ -331,6 +361,15 @@ def _run(case, root):
         if out is None:
             violations.append({"oracle": "C07.nofail", "detail": f"process {pid} op {op} never returned"})
             continue
+        if op[0] == "evalr":
+            okvals = [rval[(srck, ps)] for ps in ("old", "new")]
+            if out[0] != "ok":
+                violations.append({"oracle": "C07.nofail",
+                                   "detail": f"process {pid} reader evaluation raised {out[1:]} although the loaded path was committed before"})
+            elif out not in okvals:
+                violations.append({"oracle": "C07.value",
+                                   "detail": f"process {pid} reader evaluation returned {_short(out)} expected one of {[_short(x) for x in okvals]}"})
+            continue
         if op[0] == "eval":
             if out[0] != "ok":
                 violations.append({"oracle": "C07.nofail",
@@ -358,7 +397,36 @@ def _run(case, root):
             if out[1] not in allowed:
                 violations.append({"oracle": "C07.value",
                                    "detail": f"process {pid} load {path} returned {_short(out[1])}; allowed {sorted(_short(x) for x in allowed)}"})
-    # ---- final state
+    # ---- final state, first WITHOUT evaluating anything: what do the committed paths serve now?
+    if not violations:
+        for d in datas:
+            allp = sorted(set(tab["old"]) | set(tab["new"]))
+            sim3 = Sim(live, seed_hex)
+            try:
+                p3 = sim3.spawn(job("old", [["load", pth] for pth in allp], d, gates=False))
+                sim3.run_alone(p3)
+            finally:
+                sim3.close()
+            for k, pth in enumerate(allp):
+                r = p3.results.get(2 + k)
+                ws = [w for w in writes[d] if pth in w[2]]
+                done = [w for w in ws if w[1] < BIG]
+                allowed = set()
+                for w in ws:
+                    superseded = any(w[1] < w2[0] and w2[1] < BIG and w2[2][pth] != w[2][pth] for w2 in ws)
+                    if not superseded:
+                        allowed.add(w[2][pth])
+                if r is None:
+                    continue
+                if r[0] == "ok":
+                    if r[1] not in allowed:
+                        violations.append({"oracle": "C07.final",
+                                           "detail": f"after all finished (nothing re-evaluated), path {pth} on view {d} serves {_short(r[1])}; "
+                                                     f"allowed {sorted(_short(x) for x in allowed)}"})
+                elif done:
+                    violations.append({"oracle": "C07.final",
+                                       "detail": f"after all finished, path {pth} on view {d} fails to load ({r[1:]}) although it was committed"})
+    # ---- final state after a fresh evaluation
     if not violations:
         final_src = "new" if any(pc["src"] == "new" and any(o[0] == "eval" for o in pc["ops"]) for pc in case["procs"]) else "old"
         for d in datas:
